@@ -3,7 +3,7 @@ CONSTANTS
   Sizes = {1, 2, 4}
   MaxScript = 3
   Retry = 3
-  Fix = {}
+  Fix = {"exists", "nopeer_fails"}
   Emit = TRUE
 INVARIANTS EmitInv
 CHECK_DEADLOCK FALSE
